@@ -1,5 +1,5 @@
 -------------------------- MODULE Gen_StreamSched --------------------------
-(* spec -> impl: ENVIRONMENT schedules for `vh-sched replay`.  After a fixed script (which opens the streams, fills
+(* spec -> impl: ENVIRONMENT schedules for `vh-sched replay`.  After a scenario's fixed script (which opens the streams, fills
    them and moves the cursor into the middle of a round) every schedule of Depth further environment steps is emitted:
    writes of several sizes on every stream, shutdown, reset, acknowledgement of everything in flight (removes a finished
    stream from `outgoings`), acknowledgement of a reset (removes it), window and connection credit updates, a new
@@ -10,16 +10,52 @@
    what the code actually did is judged afterwards by Trace_StreamSched.
    In simulation mode (-simulate) the same next-state relation yields long random walks. *)
 EXTENDS StreamSched, Sequences, Json
-CONSTANTS Script,            \* forced prefix of steps
-          Depth,             \* free steps after it
-          SWin, CWin,        \* initial stream window / connection window granted by the peer
-          Sizes, Caps, Incs, \* write sizes, packet capacities, window increments
-          MaxStreams, Drain, Refill
-VARIABLES m, hist, flown     \* flown: streams with frames in flight
+CONSTANTS Use,               \* names of the scenarios to generate from
+          Depth,             \* free steps after a scenario's script (plus the scenario's bonus)
+          Caps, Incs,        \* packet capacities, window increments
+          Drain, Refill
+VARIABLES m, hist, flown,    \* flown: streams with frames in flight
+          sc                 \* the scenario (constant along a behaviour)
 
-GenCfg == [swin_bi |-> SWin, swin_uni |-> SWin, cwin |-> CWin, streams |-> 8, drain |-> Drain]
-GenInit == m = Init0(CWin) /\ hist = <<GenCfg>> /\ flown = {}
+-----------------------------------------------------------------------------
+(* scripts *)
+\* three streams (ids 0, 2, 4) with a backlog larger than one token bucket; two packets move the cursor into a visit
+Round3 == << <<"open", "bi">>, <<"open", "uni">>, <<"open", "bi">>,
+             <<"write", 0, 9000>>, <<"write", 2, 9000>>, <<"write", 4, 9000>>,
+             <<"pack", 1200>>, <<"pack", 1200>> >>
+\* the same with the cursor at the end of a visit: the bucket of stream 4 is exactly used up (tokens = 0)
+Exhausted3 == Round3 \o << <<"pack", 1200>>, <<"pack", 1200>> >>
+\* four streams, two of them idle: the cursor has to skip
+Sparse4 == << <<"open", "bi">>, <<"open", "uni">>, <<"open", "bi">>, <<"open", "uni">>,
+              <<"write", 2, 6000>>, <<"write", 6, 6000>>, <<"pack", 1200>> >>
+\* two streams and nothing else
+Pair2 == << <<"open", "bi">>, <<"open", "bi">>, <<"write", 0, 5000>>, <<"write", 4, 5000>> >>
+\* the cursor in the MIDDLE of the ring (stream 2, tokens left), sendable streams below (0) and above (4) it, and the
+\* cursor stream about to leave `outgoings`: finished (FIN sent, waiting for the acknowledgement) ...
+MidFin == << <<"open", "bi">>, <<"open", "uni">>, <<"open", "bi">>,
+             <<"write", 4, 1000>>, <<"write", 2, 1100>>, <<"fin", 2>>, <<"write", 0, 9000>>, <<"pack", 1200>>,
+             <<"write", 4, 9000>>, <<"pack", 920>> >>
+\* ... or reset (waiting for the acknowledgement of the RESET_STREAM)
+MidReset == << <<"open", "bi">>, <<"open", "uni">>, <<"open", "bi">>,
+               <<"write", 4, 1000>>, <<"write", 2, 9000>>, <<"write", 0, 9000>>, <<"pack", 1200>>,
+               <<"write", 4, 9000>>, <<"cancel", 2>> >>
+Big == 16777216
+Scenarios ==
+    { [name |-> "round3", script |-> Round3, swin |-> Big, cwin |-> Big, sizes |-> {1, 5000}, maxs |-> 4, bonus |-> 0],
+      [name |-> "exhausted3", script |-> Exhausted3, swin |-> Big, cwin |-> Big, sizes |-> {1, 5000}, maxs |-> 4, bonus |-> 0],
+      [name |-> "sparse4", script |-> Sparse4, swin |-> Big, cwin |-> Big, sizes |-> {1, 5000}, maxs |-> 4, bonus |-> 0],
+      [name |-> "windows", script |-> Round3, swin |-> 10000, cwin |-> 14000, sizes |-> {1, 5000}, maxs |-> 4, bonus |-> 0],
+      [name |-> "midfin", script |-> MidFin, swin |-> Big, cwin |-> Big, sizes |-> {1, 5000}, maxs |-> 4, bonus |-> 0],
+      [name |-> "midreset", script |-> MidReset, swin |-> Big, cwin |-> Big, sizes |-> {1, 5000}, maxs |-> 4, bonus |-> 0],
+      [name |-> "pair2", script |-> Pair2, swin |-> 6000, cwin |-> Big, sizes |-> {1, 3000}, maxs |-> 3, bonus |-> 1],
+      [name |-> "blank", script |-> << >>, swin |-> Big, cwin |-> Big, sizes |-> {5000}, maxs |-> 3, bonus |-> 2],
+      [name |-> "walk", script |-> Round3, swin |-> 20000, cwin |-> 60000, sizes |-> {1, 700, 5000}, maxs |-> 6, bonus |-> 0] }
+
+GenCfg(s) == [swin_bi |-> s.swin, swin_uni |-> s.swin, cwin |-> s.cwin, streams |-> 8, drain |-> Drain, scen |-> s.name]
+GenInit == \E s \in {x \in Scenarios : x.name \in Use} :
+              sc = s /\ m = Init0(s.cwin) /\ hist = <<GenCfg(s)>> /\ flown = {}
 Steps == Len(hist) - 1
+Total == Len(sc.script) + Depth + sc.bonus
 
 \* ids the real endpoint will hand out: client bidi 0,4,8..  client uni 2,6,10..
 NextId(kind) == LET ty == IF kind = "bi" THEN 0 ELSE 2
@@ -40,7 +76,8 @@ Fill(mm, rem, fl) ==
 Do(op) ==
     LET k == op[1] IN
     /\ hist' = Append(hist, op)
-    /\ CASE k = "open" -> m' = Open(m, NextId(op[2]), SWin) /\ UNCHANGED flown
+    /\ UNCHANGED sc
+    /\ CASE k = "open" -> m' = Open(m, NextId(op[2]), sc.swin) /\ UNCHANGED flown
          [] k = "write" -> m' = Write(m, op[2], op[3]) /\ UNCHANGED flown
          [] k = "fin" -> m' = Shutdown(m, op[2]) /\ UNCHANGED flown
          [] k = "cancel" -> m' = Cancel(m, op[2]) /\ UNCHANGED flown
@@ -52,33 +89,18 @@ Do(op) ==
 
 LiveSet == {s \in m.created : Live(m, s)}
 Choices ==
-    {<<"write", s, n>> : s \in {x \in LiveSet : m.st[x] = "send"}, n \in Sizes}
+    {<<"write", s, n>> : s \in {x \in LiveSet : m.st[x] = "send"}, n \in sc.sizes}
     \cup {<<"fin", s>> : s \in {x \in LiveSet : m.st[x] = "send"}}
     \cup {<<"cancel", s>> : s \in {x \in LiveSet : m.st[x] \in {"send", "fin", "done"}}}
     \cup {<<"ack", s>> : s \in flown \cap LiveSet}
     \cup {<<"rstack", s>> : s \in {x \in LiveSet : m.st[x] = "reset"}}
     \cup {<<"wu", s, i>> : s \in {x \in LiveSet : m.st[x] \in {"send", "fin"} /\ m.room[x] < m.pend[x]}, i \in Incs}
     \cup {<<"md", i>> : i \in IF m.credit = 0 THEN Incs ELSE {}}
-    \cup {<<"open", k>> : k \in IF Cardinality(m.created) < MaxStreams THEN {"bi", "uni"} ELSE {}}
+    \cup {<<"open", k>> : k \in IF Cardinality(m.created) < sc.maxs THEN {"bi", "uni"} ELSE {}}
     \cup {<<"pack", c>> : c \in Caps}
 
 GenNext ==
-    /\ Steps < Len(Script) + Depth
-    /\ IF Steps < Len(Script) THEN Do(Script[Steps + 1]) ELSE \E op \in Choices : Do(op)
-Emit == (Steps = Len(Script) + Depth) => PrintT(<<"GEN", ToJson(hist)>>)
-
------------------------------------------------------------------------------
-(* scripts *)
-\* three streams (ids 0, 2, 4) with a backlog larger than one token bucket; two packets move the cursor into a visit
-Round3 == << <<"open", "bi">>, <<"open", "uni">>, <<"open", "bi">>,
-             <<"write", 0, 9000>>, <<"write", 2, 9000>>, <<"write", 4, 9000>>,
-             <<"pack", 1200>>, <<"pack", 1200>> >>
-\* the same with the cursor at the end of a visit: the bucket of stream 4 is exactly used up (tokens = 0)
-Exhausted3 == Round3 \o << <<"pack", 1200>>, <<"pack", 1200>> >>
-\* four streams, two of them idle: the cursor has to skip
-Sparse4 == << <<"open", "bi">>, <<"open", "uni">>, <<"open", "bi">>, <<"open", "uni">>,
-              <<"write", 2, 6000>>, <<"write", 6, 6000>>, <<"pack", 1200>> >>
-\* two streams and nothing else
-Pair2 == << <<"open", "bi">>, <<"open", "bi">>, <<"write", 0, 5000>>, <<"write", 4, 5000>> >>
-Blank == << >>
+    /\ Steps < Total
+    /\ IF Steps < Len(sc.script) THEN Do(sc.script[Steps + 1]) ELSE \E op \in Choices : Do(op)
+Emit == (Steps = Total) => PrintT(<<"GEN", ToJson(hist)>>)
 =============================================================================
